@@ -6,6 +6,19 @@ DT = {"float64": torch.float64, "float32": torch.float32}
 
 
 def make(desc: dict, dtype=torch.float64):
+    """Builds the aggregator; desc["hook"] = {"post": a, "pre": b} additionally registers user hooks on the aggregator object
+    (nn.Module API): the result of `aggregator(J)` - which is what backward must deposit - is then a * A(b * J)."""
+    agg = _make(desc, dtype)
+    hook = desc.get("hook")
+    if hook:
+        if hook.get("pre") is not None:
+            agg.register_forward_pre_hook(lambda mod, inp, c=hook["pre"]: (inp[0] * c,))
+        if hook.get("post") is not None:
+            agg.register_forward_hook(lambda mod, inp, out, c=hook["post"]: out * c)
+    return agg
+
+
+def _make(desc: dict, dtype=torch.float64):
     import torchjd.aggregation as A
     name = desc["name"]
     def vec(key):
